@@ -6,8 +6,8 @@ out=work/seeds_summary.log
 for d in seeded/*/; do
   sid=$(basename $d)
   prop=$(python3 -c "import json;print(json.load(open('$d/meta.json'))['property'])")
-  if ! git -C /repo apply --check "$d/patch.diff" 2>/dev/null; then echo "$sid $prop PATCH-DOES-NOT-APPLY" >> $out; continue; fi
-  git -C /repo apply "$d/patch.diff"
+  if ! git -C /repo apply --check "/verif/$d/patch.diff" 2>/dev/null; then echo "$sid $prop PATCH-DOES-NOT-APPLY" >> $out; continue; fi
+  git -C /repo apply "/verif/$d/patch.diff"
   ./check $prop --tier quick > work/seedrun_${sid}_${prop}.log 2>&1
   rc=$?
   git -C /repo checkout -- .
